@@ -63,10 +63,7 @@ func checkC06(e *Env) {
 		gate.CallOK("N.each", "signature.verifyVouchedSubset", "param:sigs.VouchedSubsets[rangeidx]", "param:sigs.Authorities", "param:verificationTime", "param:ver"))
 	forAllIterations(e, "FORALL", nv, "param:sigs.VouchedSubsets", noCfg,
 		gate.Gate{Key: "N.keep", Desc: "the verified subset is appended to the verifier's list",
-			Instr: func(in ssa.Instruction) bool {
-				c, ok := in.(*ssa.Call)
-				return ok && prov.CalleeName(&c.Call) == "builtin:append" && strings.Contains(prov.Of(c.Call.Args[1]), "VerifiedSignedSubset")
-			}})
+			Instr: collects("VerifiedSignedSubset")})
 	// the signing algorithm shared with signed exchanges: curve/hash pairing and a digest of this message only
 	curveHashTable(e)
 	e.R.Floor("FORALL", 2)
